@@ -90,7 +90,7 @@ ASSUME = ["database is a dict started empty", "hash = identity in the model: kec
 
 
 def generic(prop, tier, quick, thorough, *, opts=(), modes=("plain",), ntr=(60, 600), prune=None,
-            need_tags=(), sim=None, sim_n=(24, 600), sim_depth=(10, 14)):
+            need_tags=(), sim=None, sim_n=(24, 600), sim_depth=(10, 14), finish=True):
     rep = Report(prop, tier, LEVEL)
     rep.assumptions += ASSUME
     for kw in (quick if tier == "quick" else thorough):
@@ -101,9 +101,12 @@ def generic(prop, tier, quick, thorough, *, opts=(), modes=("plain",), ntr=(60, 
     q = tier == "quick"
     for kw in ([sim] if isinstance(sim, dict) else (sim or [])):
         kw = dict(kw, level=None)
-        if kw.get("emit", "x") is None:
-            kw["emit"] = "EmitAll"
-        kw["invariants"] = [i for i in kw.get("invariants", ()) if not i.startswith("EmitSt")]
+        # in simulation every generated successor is checked against the invariants, so the
+        # state-level emitters print one genuine behaviour (the path walked + that successor) each
+        em = kw.get("emit") or "EmitAll"
+        kw["invariants"] = [i for i in kw.get("invariants", ()) if not i.startswith("EmitSt")] + \
+            [em.replace("Emit", "EmitSt", 1)]
+        kw["emit"] = None
         run_spec_to_code(rep, cfg(**kw), opts,
                          simulate=dict(num=sim_n[0] if q else sim_n[1], depth=sim_depth[0] if q else sim_depth[1]))
     if modes:
@@ -111,7 +114,7 @@ def generic(prop, tier, quick, thorough, *, opts=(), modes=("plain",), ntr=(60, 
     for t in need_tags:
         if not rep.cov.get("case_tags", {}).get(t):
             rep.vacuity.append(f"no replayed behaviour was tagged '{t}'")
-    return rep.finish()
+    return rep.finish() if finish else rep
 
 
 def c01(tier):
@@ -217,6 +220,28 @@ def c08(tier):
                             emit="EmitC08"), sim_n=(12, 240))
 
 
+def c10(tier):
+    inv = ["KeyAfterIsSucc", "FirstIsMin", "PreorderItemsSorted", "PreorderIsTraverse", "EmitStC10"]
+    base = dict(features="FDirect", invariants=inv, emit=None)
+    rc = generic("C10", tier,
+                 [dict(base, level=5), dict(base, level=4, keys="KFull", look="LFull", vals="VQuick", maxlive=3,
+                                            prune="OnlyNoPrune")],
+                 [dict(base, level=6, keys="KFull", look="LFull", vals="VQuick", maxlive=4)],
+                 modes=(), need_tags=("has-extension", "has-branch", "calls:iter.nodes"),
+                 sim=dict(base, features="FBatchNoop", keys="KFull", look="LFull", vals="VQuick", maxlive=5,
+                          emit="EmitC10"), sim_n=(12, 240), finish=False)
+    rep = rc
+    # the loop of NodeIterator.nodes() as a run of the fog-walk specification: always the
+    # left-most unexplored prefix, frontier cache on, no mutation; it must visit Preorder(trie)
+    from . import checks_misc
+
+    cfgtext = checks_misc.walk_cfg(spec="SpecOrdered", maxlive=3 if tier == "quick" else 4, muts=0, cache="OnlyT",
+                                   keys="KWalk" if tier == "quick" else "KWalk2", startall="TRUE")
+    cfgtext = cfgtext.replace("PROPERTY Terminates", "PROPERTY Terminates\nINVARIANT OrderedIsPreorder")
+    checks_misc.run_s2c(rep, "MC_FogWalk", cfgtext, "harness.fogwalk:replay_line", owners={"C10", "C09"})
+    return rep.finish()
+
+
 def c03(tier):
     inv = ["ProofComplete", "ProofOnPath", "ProofSound", "EmitStC03"]
     base = dict(features="FDirect", invariants=inv, emit=None, prune="OnlyNoPrune")
@@ -230,4 +255,4 @@ def c03(tier):
                    sim_depth=(5, 9))
 
 
-CHECKS = {"C01": c01, "C03": c03, "C07": c07, "C08": c08, "C02": c02, "C04": c04, "C05": c05, "C06": c06}
+CHECKS = {"C01": c01, "C03": c03, "C07": c07, "C08": c08, "C10": c10, "C02": c02, "C04": c04, "C05": c05, "C06": c06}
